@@ -72,10 +72,16 @@ def write(x, p):
     # actually making a further one-byte write into each region.
     if raised:
         return
+    rebind = x.choice('rebind', [False, True])
     for name, cls, lo, hi in REGIONS:
         region = getattr(g, name)._data
         x.check('region ' + name + ' is not the caller\'s object',
                 region is not data)
+        if rebind:
+            # the user replaces the region object (game.gfx = Gfx.from_bytes(
+            # ...), as build does with sections of other carts): the next
+            # write must go to the object the game has now
+            setattr(g, name, hx.made(cls, hx.mutable_copy(region)))
         v2 = x.int('second.' + name, 0, 255)
         try:
             g.write_cart_data(bytes([v2]), lo + 1)
